@@ -57,6 +57,9 @@ class LZWDecoder:
         elif code == 257:
             pass
         elif not self.prevbuf:
+            if code >= len(self.table):
+                # no clear-table code came first, or the code is not a byte
+                raise CorruptDataError
             x = self.prevbuf = cast(bytes, self.table[code])  # assume not None
         else:
             if code < len(self.table):
